@@ -92,6 +92,8 @@ def scenarios(r, p):
             cur["metadata"].pop("ownerReferences", None)
         return cur
 
+    if not p.get("createEnabled", True):      # may not create: present (provisioned elsewhere) x drifted x policy
+        return rf45.synth_stored(p), ([None, perturb, None] if r.random() < 0.6 else [perturb, None, None])
     c = r.random()
     if c < 0.7:
         return None, [None, None, perturb, None]
